@@ -257,27 +257,38 @@ class FnEmit:
         if op == 'getelementptr':
             p.eat('inbounds'); p.expect('(')
             bt = p.type(); p.expect(','); pt = p.type(); base = s.val(p, pt)
-            idx = []
+            idx = []; its = []
             while p.eat(','):
-                p.eat('inrange'); it = p.type(); idx.append(s.val(p, it))
+                p.eat('inrange'); it = p.type(); idx.append(s.val(p, it)); its.append(it)
             p.expect(')')
-            return s.gep(bt, base, idx)[0]
+            return s.gep(bt, base, idx, its)[0]
         if op in ('bitcast', 'inttoptr', 'ptrtoint'):
             p.expect('('); ft = p.type(); v = s.val(p, ft); p.expect('to'); tt = p.type(); p.expect(')')
             return '((%s)%s)' % (s.E.ct(tt), v)
     def resolve(s, t):
         while t.k == 'named': t = s.E.m.types[t.name]
         return t
-    def gep(s, bt, base, idx):
-        e = '%s[%s]' % (base, idx[0]) if idx[0] not in ('((uint32_t)0ULL)', '((uint64_t)0ULL)') else '(*%s)' % base
+    def sidx(s, ix, it):
+        """GEP indices are SIGNED (LLVM sign-extends them to pointer width)"""
+        m = re.fullmatch(r'\(\(uint(\d+)_t\)(\d+)ULL\)', ix)
+        if m:
+            w = int(m.group(1)); v = int(m.group(2))
+            if v >= (1 << (w - 1)): v -= (1 << w)
+            return '((int64_t)%dLL)' % v if v != -(1 << 63) else '((int64_t)(-9223372036854775807LL-1))'
+        if it is not None and it.k == 'int' and it.w in (8, 16, 32, 64):
+            return '((int64_t)%s)' % s.sx(it, ix)
+        return ix
+    def gep(s, bt, base, idx, its=None):
+        its = its or [None] * len(idx)
+        e = '%s[%s]' % (base, s.sidx(idx[0], its[0])) if idx[0] not in ('((uint32_t)0ULL)', '((uint64_t)0ULL)') else '(*%s)' % base
         t = bt
-        for ix in idx[1:]:
+        for ix, it in zip(idx[1:], its[1:]):
             rt = s.resolve(t)
             if rt.k == 'struct':
                 m = re.fullmatch(r'\(\(uint\d+_t\)(\d+)ULL\)', ix)
                 n = int(m.group(1)); e = '%s.f%d' % (e, n); t = rt.fs[n]
             elif rt.k == 'arr':
-                e = '%s.a[%s]' % (e, ix); t = rt.el
+                e = '%s.a[%s]' % (e, s.sidx(ix, it)); t = rt.el
             else: raise Err('gep into ' + tstr(rt))
         return '(&%s)' % e, t
     def setreg(s, name, t, expr):
@@ -407,10 +418,10 @@ class FnEmit:
                 s.out.append('  *%s = %s;' % (a, v))
         elif op == 'getelementptr':
             p.eat('inbounds'); bt = p.type(); p.expect(','); pt = p.type(); base = s.val(p, pt)
-            idx = []
+            idx = []; its = []
             while p.eat(','):
-                it = p.type(); idx.append(s.val(p, it))
-            e, t = s.gep(bt, base, idx)
+                it = p.type(); idx.append(s.val(p, it)); its.append(it)
+            e, t = s.gep(bt, base, idx, its)
             s.setreg(reg, T('ptr', to=t), e)
         elif op in ('bitcast', 'inttoptr', 'ptrtoint', 'trunc', 'zext', 'sext', 'addrspacecast'):
             ft = p.type(); v = s.val(p, ft); p.expect('to'); tt = p.type()
@@ -505,6 +516,8 @@ class FnEmit:
                     e = 'memcpy(%s, %s, %s)' % (args[0], args[1], args[2])
                 elif callee.startswith('@llvm.memset'):
                     e = 'memset(%s, %s, %s)' % (args[0], args[1], args[2])
+                elif callee.startswith('@llvm.is.constant'):
+                    e = '0'
                 elif callee.startswith('@llvm.trap'):
                     e = '__CPROVER_assume(0)'
                 elif callee.startswith('@llvm.'):
